@@ -63,6 +63,17 @@ CHECKS["C09"] = dict(
          "executable references validated by vectors and differentially, not proved equal to the standards.",
     technique="Lean 4 proof (equational, over an abstract hash) + model/implementation correspondence with independent hashes",
     design="6 C09")
+CHECKS["C19"] = dict(
+    text="Lean 4 theorems about the effect sequences generated from today's source of Config.save and Config.dumps: a general "
+         "ordering lemma (a fault at or before the first effect that can touch the destination leaves it untouched, for every "
+         "program, by induction); decide obligations on the generated save program (self.dumps is called, strictly before the first "
+         "destination-touching effect, nothing untranslatable) and on the dumps program (no file effect of its own); success writes "
+         "exactly the serialised bytes. Correspondence: fault injection at every serialisation step x five formats on the real "
+         "Config.save with a pre-existing destination (bytes, inode, mtime, log of opens for writing) vs the interpreter.",
+    note="Translator (harness/extract.py, ast-based, straight-line subset; unknown syntax becomes an `unknown` effect that breaks the "
+         "obligation) and the hand-written effect semantics are trusted. A crash inside file.write is outside the property and the model.",
+    technique="Lean 4 proof over a model regenerated from the source on every run (translator) + fault-injection correspondence",
+    design="6 C19")
 PENDING = ["C01", "C02", "C03", "C04", "C05", "C06", "C07", "C08", "C09", "C10", "C11", "C12", "C13", "C14", "C15", "C16",
            "C17", "C19", "C20"]
 
